@@ -495,13 +495,12 @@ impl SlabRouter {
             return self.put(key, value);
         }
 
-        #[cfg(feature = "neumann_verif")]
-        verif_durable_window("before log lock");
-
         // Log to WAL first (if configured). The log lock is held until the write has been
         // applied in memory: concurrent durable writes then take effect in log order, so a
         // restart recovers the state readers last saw.
         let _wal_guard = if let Some(wal_mutex) = &self.wal {
+            #[cfg(feature = "neumann_verif")]
+            verif_durable_window("before log lock");
             let mut wal = wal_mutex.lock();
 
             // Log embedding if present
@@ -545,12 +544,11 @@ impl SlabRouter {
             return self.delete(key);
         }
 
-        #[cfg(feature = "neumann_verif")]
-        verif_durable_window("before log lock");
-
         // Log to WAL first (if configured); the log lock is held until the delete has been
         // applied in memory (see `put_durable`).
         let _wal_guard = if let Some(wal_mutex) = &self.wal {
+            #[cfg(feature = "neumann_verif")]
+            verif_durable_window("before log lock");
             let mut wal = wal_mutex.lock();
 
             // Log embedding delete if key is in entity index
